@@ -18,6 +18,7 @@ VERIF_SEED only selects PYTHONHASHSEED (iteration orders inside the library).
 from __future__ import annotations
 
 import collections
+import fnmatch
 import contextlib
 import hashlib
 import importlib
@@ -199,12 +200,16 @@ def main(argv=None):
     for sig, detail, case in merged.violations:
         by_sig.setdefault(sig, (detail, case))
     unlisted = 0
+    unlisted_sigs = []
     seen_known = set()
     for sig in sorted(by_sig):
         detail, case = by_sig[sig]
-        if sig in known:
-            seen_known.add(sig)
-            real_out.write(f"KNOWN-FINDING: property={prop} {sig} :: {known[sig].get('what', '')}\n")
+        kmatch = sig if sig in known else next((k for k in known if any(ch in k for ch in "*?[") and fnmatch.fnmatchcase(sig, k)), None)
+        if kmatch is not None:
+            if kmatch in seen_known:
+                continue          # one line per listed finding
+            seen_known.add(kmatch)
+            real_out.write(f"KNOWN-FINDING: property={prop} {kmatch} :: {known[kmatch].get('what', '')}\n")
             if a.save_findings:
                 write_replay(prop, sig, detail, case, seed, dirname="findings")
             continue
@@ -216,6 +221,7 @@ def main(argv=None):
                 real_out.write(f"HARNESS-NONDETERMINISM property={prop} signature={sig} replay1={s1} replay2={s2}\n")
                 return 2
         unlisted += 1
+        unlisted_sigs.append(sig)
         real_out.write(f"VIOLATION property={prop} replay={path}\n")
         real_out.write(f"    signature: {sig}\n    detail: {detail}\n")
     stale_known = sorted(set(known) - seen_known)
@@ -239,7 +245,7 @@ def main(argv=None):
                        "execution of the real implementation (no separate model), hence traces_validated == transitions",
         "implementation": {"file": impl_file, "git_head": _git("rev-parse", "HEAD"),
                            "worktree_dirty_sha1": hashlib.sha1(_git("diff", "HEAD").encode()).hexdigest()[:12]},
-        "violation_signatures_unlisted": sorted(s for s in by_sig if s not in known),
+        "violation_signatures_unlisted": sorted(unlisted_sigs),
         "known_findings_seen": sorted(seen_known),
         "known_findings_not_reproduced_in_this_tier": stale_known,
     }
